@@ -65,7 +65,7 @@ pub fn main(args: &[String]) {
         let prof = crate::c05::profile_of(target, unsafe_refs);
         // every second module stays away from the shapes of the recorded findings, to look behind them
         let avoid = if i % 2 == 1 {
-            Avoid { noncustom_result_err: target == "js" || target == "demo_gen", byte_slices: target == "dart", callbacks_on_methods_with_self: target == "kotlin" }
+            Avoid { noncustom_result_err: target == "js" || target == "demo_gen", byte_slices: target == "dart", callbacks_on_methods_with_self: target == "kotlin", ..Default::default() }
         } else {
             Avoid::default()
         };
